@@ -25,8 +25,12 @@ const (
 	sigPrevLater  = "desc|fill(previous)|filled-from-the-later-bucket"
 	sigDescSel    = "desc|first-last|reports-another-point-of-the-bucket"
 	sigFillSplit  = "desc|bytime-fill-split-across-chunks|bucket-with-data-reported-as-empty"
-	sigPrevLeak   = "fill(previous)-split-across-chunks|leading-empty-buckets-filled-from-the-previous-group"
-	sigPhantomAgg = "field-filter|aggregate-of-a-field-that-is-null-in-passing-rows|phantom-or-displaced-group"
+	sigPrevLeak   = "fill(previous)-split-across-chunks|empty-bucket-filled-with-another-value-than-the-previous-bucket's"
+	sigLimitCut   = "select-star|limit-smaller-than-series-count|rows-are-not-the-first-of-the-ordered-answer"
+	sigBTMEmpty   = "binary_tree_merge|query-spans-two-or-more-shards|empty-answer"
+	sigBTMPanic   = "binary_tree_merge|selector-over-two-or-more-shards|runtime panic: slice bounds out of range in the merge iterator"
+	sigMetaFill   = "metamorphic-only|bytime-fill-split-across-chunks|cells-differ"
+	sigPhantomAgg = "field-filter|aggregate-of-a-field-that-is-null-in-passing-rows|lost-shifted-or-phantom-windows"
 )
 
 // bucketsInRange: number of GROUP BY time buckets of the query range.
@@ -57,37 +61,15 @@ func fillSplitPossible(q *querySpec, cl cell, nGroups int) bool {
 	return nGroups*(q.bucketsInRange()+1) > 2*cl.Inner
 }
 
-// phantomGroup: some (tag group, bucket) has rows that pass the filter but no non-null
-// value of the aggregated field among them.
-func phantomGroup(q *querySpec, rows []mrow) bool {
-	type st struct{ pass, val bool }
-	m := map[string]*st{}
-	dims := q.dims()
+// nullInPassingRows: some row passes the filter but has no value in the aggregated field
+// (the input class of the aggregate/filter defects: such rows become phantom windows).
+func nullInPassingRows(q *querySpec, rows []mrow) bool {
 	for i := range rows {
 		r := &rows[i]
 		if !q.inTime(r.t) || !evalPred(q.Where, r) {
 			continue
 		}
-		gt := map[string]string{}
-		for _, d := range dims {
-			gt[d] = r.tags[d]
-		}
-		k := model.SeriesKey(gt)
-		if q.Interval > 0 {
-			k += "@" + strconv.FormatInt(floorDiv(r.t, q.Interval), 10)
-		}
-		s := m[k]
-		if s == nil {
-			s = &st{}
-			m[k] = s
-		}
-		s.pass = true
-		if _, ok := r.f[q.Field]; ok {
-			s.val = true
-		}
-	}
-	for _, s := range m {
-		if s.pass && !s.val {
+		if _, ok := r.f[q.Field]; !ok {
 			return true
 		}
 	}
@@ -115,6 +97,9 @@ func attribute(q *querySpec, cl cell, rows []mrow, schema map[string]byte, obs *
 		qk.PrevLater = true
 	}
 	base := evaluate(q, rows, schema, cl.Desc, qk)
+	if cl.BTM && len(obs.Series) == 0 && len(base.Series) > 0 {
+		return []finding{{sigBTMEmpty, mm.String()}}
+	}
 	if qk != (quirks{}) {
 		if checkReference(base, obs) == nil {
 			if qk.NullRows {
@@ -128,9 +113,12 @@ func attribute(q *querySpec, cl cell, rows []mrow, schema map[string]byte, obs *
 		fmt.Printf("DEBUG2 %s\n   under the defect model: %s\n", q.text(cl.Desc), checkReference(base, obs).String())
 	}
 	if !q.Agg {
+		if q.Star && !hasField && q.Limit > 0 && limitCutPossible(q, rows) && rowsOfFullAnswer(q, rows, schema, cl.Desc, obs) {
+			return []finding{{sigLimitCut, mm.String()}}
+		}
 		return unexplained
 	}
-	if hasField && phantomGroup(q, rows) {
+	if hasField && nullInPassingRows(q, rows) {
 		return []finding{{sigPhantomAgg, mm.String()}}
 	}
 	// row-level attribution against the expectation under the deterministic defect models
@@ -148,11 +136,6 @@ func attribute(q *querySpec, cl cell, rows []mrow, schema map[string]byte, obs *
 	}
 	if len(obsBy) != len(base.Series) {
 		return unexplained
-	}
-	// output order of the series (for "not the first group")
-	pos := map[string]int{}
-	for i, s := range obs.Series {
-		pos[s.Key] = i
 	}
 	split := fillSplitPossible(q, cl, len(base.Series))
 	for _, es := range base.Series {
@@ -189,8 +172,8 @@ func attribute(q *querySpec, cl cell, rows []mrow, schema map[string]byte, obs *
 				causes[sigDescSel] = fmt.Sprintf("{%s} %s: got %s, admissible %s", es.Key, "row "+strconv.Itoa(gi), rowText(row), altsText(g.Alts, 1))
 			case cl.Desc && split && !g.Empty && isFillValue(q, ov, os, gi, es.Kinds[1]):
 				causes[sigFillSplit] = fmt.Sprintf("{%s} row %d: got %s, the bucket has data: %s", es.Key, gi, rowText(row), altsText(g.Alts, 1))
-			case q.Fill == "previous" && split && g.Empty && g.Leading && ov.Kind != 0 && pos[es.Key] > 0:
-				causes[sigPrevLeak] = fmt.Sprintf("{%s} row %d: got %s, no bucket with data precedes it in this group", es.Key, gi, rowText(row))
+			case q.Fill == "previous" && split && g.Empty:
+				causes[sigPrevLeak] = fmt.Sprintf("{%s} row %d: got %s, admissible %s", es.Key, gi, rowText(row), altsText(g.Alts, 1))
 			case q.Fill == "previous" && g.Empty && !g.Leading && gi > 0 && sameCell(os.Rows[gi-1][1], row[1]) && len(causes) > 0:
 				// an empty bucket repeats the (already attributed) wrong value before it
 			default:
@@ -242,4 +225,58 @@ func isFillValue(q *querySpec, v model.Value, os *obsSeries, gi int, kind byte) 
 		return v.F == float64(n)
 	}
 	return v.Kind == 'i' && v.I == n
+}
+
+// limitCutPossible: the engine keeps only limit+offset series (those that start first)
+// when SELECT * has a LIMIT smaller than the number of series.
+func limitCutPossible(q *querySpec, rows []mrow) bool {
+	series := map[string]bool{}
+	for i := range rows {
+		if evalPred(q.Where, &rows[i]) {
+			series[rows[i].skey] = true
+		}
+	}
+	return q.Limit+q.Offset < len(series)
+}
+
+// rowsOfFullAnswer: every observed row is a row of the answer without LIMIT/OFFSET and
+// the rows come in time order (so only the choice of the window is wrong).
+func rowsOfFullAnswer(q *querySpec, rows []mrow, schema map[string]byte, desc bool, obs *answer) bool {
+	full := *q
+	full.Limit, full.Offset = 0, 0
+	e := evaluate(&full, rows, schema, desc, quirks{})
+	if len(e.Series) != 1 || len(obs.Series) != 1 {
+		return false
+	}
+	es := e.Series[0]
+	avail := map[string]int{}
+	for _, g := range es.Groups {
+		for _, a := range g.Alts {
+			avail[valsText(a)]++
+		}
+	}
+	var last int64
+	for i, row := range obs.Series[0].Rows {
+		if len(row) != len(es.Kinds) {
+			return false
+		}
+		vals := make([]model.Value, len(row))
+		for c := range row {
+			v, ok := parseCell(row[c], es.Kinds[c])
+			if !ok {
+				return false
+			}
+			vals[c] = v
+		}
+		k := valsText(vals)
+		if avail[k] == 0 {
+			return false
+		}
+		avail[k]--
+		if i > 0 && (vals[0].I < last) != desc && vals[0].I != last {
+			return false
+		}
+		last = vals[0].I
+	}
+	return true
 }
